@@ -313,6 +313,13 @@ Section Ser.
   Definition ma_ok (l : list tlv) : bool :=
     forallb (fun a => negb (tlv_t a =? Consts.RAD_Attr_Message_Authenticator) || (tlv_l a =? 16)) l.
 
+  Lemma ma_ok_not_bad l : ma_ok l = true -> existsb bad_ma l = false.
+  Proof.
+    unfold ma_ok, bad_ma. induction l as [|a l IH]; [reflexivity|]. cbn [forallb existsb]. intro H.
+    apply andb_true_iff in H as [Ha Hl]. rewrite (IH Hl).
+    destruct (tlv_t a =? Consts.RAD_Attr_Message_Authenticator); cbn [negb orb andb] in *; [rewrite Ha|]; reflexivity.
+  Qed.
+
   Definition msg_ok (m : radmsg) : bool :=
     attrs_ok (m_attrs m) && ma_ok (m_attrs m) && (length (m_auth m) =? 16)%nat && wf_bytes (m_auth m) &&
     is_byte (m_code m) && is_byte (m_id m).
@@ -349,6 +356,7 @@ Section Ser.
     apply andb_true_iff in OK as [Hattrs Hma]. apply Nat.eqb_eq in Hal.
     unfold radmsg2buf. set (size := 20 + attrs_size (m_attrs m)).
     destruct (Consts.RADMSG2BUF_MAX <? size) eqn:SZ; [apply N.ltb_lt in SZ; exact SZ|].
+    rewrite (ma_ok_not_bad _ Hma).
     apply N.ltb_ge in SZ. change (concat (map tlv2buf (m_attrs m))) with (attrs_bytes (m_attrs m)).
     set (hdr := radius_header (m_code m) (m_id m) size (m_auth m)).
     assert (Hhdr : length hdr = 20%nat).
